@@ -20,6 +20,7 @@ structure Pending where
   callNo : String
   call : String
   args : List String
+  ackAtBegin : Nat := 0          -- largest commit ts acknowledged to any client when this call was entered
   deriving Repr
 
 structure JState where
@@ -213,7 +214,13 @@ def toldCheck (j : JState) : Option String :=
       -- Commit of a transaction without mutations: nothing to commit, and nothing of it may be in the store
       if o == .none then none else some s!"C03 Commit of {st} answered success without a commit ts but the store shows {repr o}"
     | ["ok", c] =>
-      if committedAt == c.toNat? && committedAt.isSome then none
+      -- a transaction whose every mutation is a non-locking existence check (optimistic insert-then-delete) commits
+      -- without leaving anything in the store
+      let onlyChecks := match j.mon.find st with
+        | some t => !t.prewritten.isEmpty && t.prewritten.all (fun x => x.2.1 == .checkNotExists)
+        | none => false
+      if onlyChecks && o == .none then none
+      else if committedAt == c.toNat? && committedAt.isSome then none
       else some s!"C03 Commit of {st} answered success at {c} but the store shows {repr o}"
     | ["undetermined"] =>
       if j.commitPointLost.contains st then none
@@ -277,7 +284,7 @@ def step (j : JState) (line : String) : JState × String :=
       let phase := (words line).getD 3 ""
       let tail := (words line).drop 4
       if phase == "begin" then
-        let p : Pending := { client := client', callNo := callNo, call := tail.headD "", args := tail.drop 1 }
+        let p : Pending := { client := client', callNo := callNo, call := tail.headD "", args := tail.drop 1, ackAtBegin := j.maxAckedCommit }
         let j1 := { j with pending := p :: j.pending.filter (·.callNo != callNo) }
         if p.call == "commit" then
           match runMon j1.mon [.commitCalled client' (curOf j1 client')] with
@@ -300,8 +307,9 @@ def step (j : JState) (line : String) : JState × String :=
             match (tail.headD "").toNat? with
             | some ts =>
               -- C01 external consistency: a commit acknowledged before this begin is visible to it
-              let ext := if ts < j1.maxAckedCommit then
-                  some s!"C01 begin at {ts} after a commit at {j1.maxAckedCommit} was acknowledged" else none
+              -- (judged against the acknowledgements that preceded the ENTRY of Begin, not its return)
+              let ext := if ts < p.ackAtBegin then
+                  some s!"C01 begin at {ts} after a commit at {p.ackAtBegin} was acknowledged" else none
               monEv { j1 with curTxn := (p.client, ts) :: j1.curTxn.filter (·.1 != p.client) } [.begin_ p.client ts (pess == "1")] ext
             | none => (j1, "ok")
           | "get", [k] =>
